@@ -94,6 +94,11 @@ var c09Servers = []c09Server{
 	{"https://{env}.example/{base}", l(m("url", "https://{env}.example/{base}", "variables", m("env", m("default", "prod", "enum", l("prod", "dev")), "base", m("default", "v1")))),
 		[]c09Prefix{{"https://prod.example/v1", true, "/v1", false}, {"https://dev.example/v1", true, "/v1", false}, {"https://other.test/v1", false, "", false}}},
 	{"two servers", l(m("url", "/v1"), m("url", "/api")), []c09Prefix{{"http://any.test/v1", true, "/v1", true}, {"http://any.test/api", true, "/api", true}, {"http://any.test/v3", false, "", true}}},
+	// absolute servers that differ in one component only: the scheme, the base path
+	{"one host under two schemes", l(m("url", "http://h.example/v1"), m("url", "https://h.example/v1")),
+		[]c09Prefix{{"http://h.example/v1", true, "/v1", false}, {"https://h.example/v1", true, "/v1", false}, {"https://other.test/v1", false, "", false}}},
+	{"one host with two base paths", l(m("url", "http://h.example/v1"), m("url", "http://h.example/v2")),
+		[]c09Prefix{{"http://h.example/v1", true, "/v1", false}, {"http://h.example/v2", true, "/v2", false}, {"http://h.example/v3", false, "", false}}},
 }
 
 var c09MethodSets = [][]string{{"get"}, {"post"}, {"get", "post"}}
@@ -125,7 +130,7 @@ func init() {
 	var tplQuick, tplThorough, pathsQuick, pathsThorough, relaxedPaths []string
 	core.Register(&core.Check{
 		ID: "C09",
-		Rule: "documents: every set of 1-2 (quick; thorough 1-3) path templates over segments {a, b, {x}, {y}, w{x} (variable with a literal prefix inside the segment), wa} of up to 2 (thorough 3) segments that passes validation, each template with methods {GET}, {POST} or {GET,POST}, x servers {none, /v1, http://h.example/v1, https://{env}.example/{base} with enum and defaults, two servers}; " +
+		Rule: "documents: every set of 1-2 (quick; thorough 1-3) path templates over segments {a, b, {x}, {y}, w{x} (variable with a literal prefix inside the segment), wa} of up to 2 (thorough 3) segments that passes validation, each template with methods {GET}, {POST} or {GET,POST}, x servers {none, /v1, http://h.example/v1, https://{env}.example/{base} with enum and defaults, two relative servers, one host under two schemes, one host with two base paths}; " +
 			"requests: every path of up to 2 segments over {a,b,c} plus dotted and three 3-segment paths (thorough: up to 4 segments over {a,b,c,a.b}), and five paths with empty segments / trailing slashes (relaxed: only no-panic and operation identity) under every matching and non-matching server prefix x {GET, POST, PUT}; both routers (legacy under both map orders). Invariants: (i) a returned route carries the operation declared for (route.Path, method) and its parameters reproduce the path; " +
 			"(ii) a path that fills a declared template with a declared method under a declared server is routed; (iii) a literal template equal to the path wins; (iv) no template or no server => a RouteError and no route. non-trivial = the request path matches at least one template of the document",
 		Assumptions: []string{
@@ -289,8 +294,19 @@ func init() {
 								// one router defect shows in hundreds of documents and requests
 								class := ""
 								if route != nil {
-									if _, ok := ref.MatchTemplate(route.Path, strings.TrimSuffix(p, "/")+"/zz"); ok && strings.HasSuffix(route.Path, "}") {
-										class = " [the path is the template minus its trailing variable: the variable is bound to the empty string]"
+									// one or more trailing variable segments of the template are missing from the path
+									tsegs := strings.Split(route.Path, "/")
+									cand := strings.TrimSuffix(p, "/")
+									for k := 1; k <= 3 && k < len(tsegs); k++ {
+										last := tsegs[len(tsegs)-k]
+										if !(strings.HasPrefix(last, "{") && strings.HasSuffix(last, "}")) {
+											break
+										}
+										cand += "/zz"
+										if _, ok := ref.MatchTemplate(route.Path, cand); ok {
+											class = " [the path is the template minus its trailing variable: the variable is bound to the empty string]"
+											break
+										}
 									}
 								}
 								dd["first_witness"] = rsig
